@@ -502,6 +502,7 @@ func (p *Parser) isStartOfExpression() bool {
 		SK_Minus,
 		SK_Tilde,
 		SK_Exclamation,
+		SK_ExclamationExclamation,
 		SK_LessThan:
 		return true
 	default:
